@@ -16,7 +16,7 @@
      statement is kept in the comment above them. *)
 From Coq Require Import List ZArith Bool Arith Lia.
 From SC Require Import Base.Res Base.PyList Inst.Heap Inst.ClassTable Inst.Model Inst.Canon
-  Inst.Abs Inst.SpecHelpers Inst.RefineProofs Inst.CopyProofs Inst.CopyStore Inst.RefineMore Inst.RefineMore2 Inst.RefineMore3 Inst.RefineMore4 Inst.RefineMore5 Inst.RefineMore6 Inst.RefineMore7 Inst.RefineMore8.
+  Inst.Abs Inst.SpecHelpers Inst.RefineProofs Inst.CopyProofs Inst.CopyStore Inst.RefineMore Inst.RefineMore2 Inst.RefineMore3 Inst.RefineMore4 Inst.RefineMore5 Inst.RefineMore6 Inst.RefineMore7 Inst.RefineMore8 Inst.RefineMore9.
 Import ListNotations.
 Open Scope nat_scope.
 
@@ -1056,6 +1056,51 @@ Proof.
   vm_compute. repeat split.
 Qed.
 
+(* ---------------- copy-on-write with invalidation (Inst/RefineMore9.v) ---------------- *)
+(* the default call forms -- with_<a>(v), transform_<a>(f), reset_<a>(), update(a=v, ...)
+   WITHOUT _inplace -- on a flat receiver of an unfrozen class whose written attributes have
+   direct dependants (`inval_flat`, `kw_inval_ok`), no __post_copy__ hook: fresh result whose
+   abstraction is the specification's (prepared value stored, dependants reset), the
+   specification's error class otherwise, no pre-existing cell changed in either case.
+   (The first call of C05_examples is an instance: with_a1(5) on a copy resets a3.) *)
+Theorem C05_copy_inval_refines_partial : forall ct h0 l c d k s,
+  nth_error (heap s) l = Some (OInst c d) -> lookup_cls ct c = Some k ->
+  NoDup (map fst d) -> flat_fields (heap s) d ->
+  c_dnc k = false -> c_frozen k = false -> fail_at s = None -> c_post_copy k = None ->
+  let post (hp : shelper) (ah : ahargs) (out : res val * state) :=
+    match out with
+    | (Ok r, s') => exists l', r = VRef l' /\ length (heap s) <= l' /\
+                    spec_helper ct h0 (absv (heap s) (VRef l)) hp ah = SOk (absv (heap s') (VRef l')) /\
+                    (forall i, i < length (heap s) -> nth_error (heap s') i = nth_error (heap s) i)
+    | (Err e, s') => spec_helper ct h0 (absv (heap s) (VRef l)) hp ah = SErr e /\
+                     (forall i, i < length (heap s) -> nth_error (heap s') i = nth_error (heap s) i)
+    end in
+  (* with_<a>(v), transform_<a>(f), reset_<a>() *)
+  (forall a sp, lookup_attr k a = Some sp -> inval_flat k a ->
+     ty_depth (a_ty sp) < FUEL -> ty_is_collection (a_ty sp) = false ->
+     match a_prepare sp with Some g => scalar_fn g = true | None => True end ->
+     (forall v, vscalar v = true ->
+        post (SWith a) (mkah [abs0 v] false true AMissing false None None [] None)
+             (run_helper ct l (HWith a) (mkh [v] false true VMissing false None None [] None) s)) /\
+     (forall f, scalar_fn f = true -> vscalar (cur_val a d k) = true ->
+        post (STransform a) (mkah [] false true AMissing false None None [] (Some f))
+             (run_helper ct l (HTransform a) (mkh [] false true VMissing false None None [] (Some f)) s)) /\
+     (literal_default a k sp -> vscalar (class_default k a) = true \/ class_default k a = VMissing ->
+        post (SReset a) (mkah [] false true AMissing false None None [] None)
+             (run_helper ct l (HReset a) (mkh [] false true VMissing false None None [] None) s))) /\
+  (* update(a=v, ...) *)
+  (forall p0 ps, Forall (kw_inval_ok k) (p0 :: ps) ->
+     post SUpdateTop (mkah [] false true AMissing false None (Some (akw (p0 :: ps))) [] None)
+          (run_helper ct l HUpdateTop (mkh [] false true VMissing false None (Some (p0 :: ps)) [] None) s)).
+Proof.
+  intros ct h0 l c d k s Hl Hc Hd Hflat Hdnc Hfz Hfa Hpc post. split.
+  - intros a sp Ha Hinv Hty Hnc Hp. split; [|split].
+    + intros v Hv. exact (with_scalar_copy_inval_refines ct h0 l c d k s Hl Hc Hd Hflat Hdnc Hfz Hfa Hpc a sp v Ha Hinv Hty Hnc Hp Hv).
+    + intros f Hf Hcur. exact (transform_scalar_copy_inval_refines ct h0 l c d k s Hl Hc Hd Hflat Hdnc Hfz Hfa Hpc a sp f Ha Hinv Hty Hnc Hp Hf Hcur).
+    + intros Hlit Hdv. exact (reset_scalar_copy_inval_refines ct h0 l c d k s Hl Hc Hd Hflat Hdnc Hfz Hfa Hpc a sp Ha Hinv Hty Hnc Hp Hlit Hdv).
+  - intros p0 ps Hkws. exact (update_top_copy_inval_refines ct h0 l c d k s Hl Hc Hd Hflat Hdnc Hfz Hfa Hpc p0 ps Hkws).
+Qed.
+
 Print Assumptions C05_noop_if_false.
 Print Assumptions C05_noop_with_unchanged.
 Print Assumptions C05_noop_update_unchanged.
@@ -1109,3 +1154,4 @@ Print Assumptions C05_example_nothing.
 Print Assumptions C05_refines_instance_partial.
 Print Assumptions C05_setattr_refines_instance_partial.
 Print Assumptions C05_example_instance.
+Print Assumptions C05_copy_inval_refines_partial.
